@@ -37,10 +37,12 @@ def _core(prop, what, design, fam):
         engine="kotocore")
 
 
-CHECKS["C02"] = _core("C02", "the argument-binding matrix (parameter kinds x argument counts x call forms), closure "
-                      "templates, random programs with nested function definitions/calls and generator programs",
+CHECKS["C02"] = _core("C02", "the argument-binding matrix (parameter kinds x argument counts x call forms), the matrix of "
+                      "calls with unpacked arguments (every sequence of 1..3 plain / unpacked arguments against variadic, default+rest "
+                      "and generator callees), closure templates (incl. functions re-made by every loop iteration), random programs with nested function definitions/calls and generator programs",
                       "DESIGN.md §5 C02", "")
-CHECKS["C03"] = _core("C03", "the subject x pattern x arm-position x guard matrix, random matches with alternatives, "
+CHECKS["C03"] = _core("C03", "the subject x pattern x arm-position x guard matrix (result variable fresh or already assigned), "
+                      "random matches with alternatives, every container pattern as a function argument pattern x every subject, "
                       "and the complete unpacking matrix", "DESIGN.md §5 C03", "")
 CHECKS["C04"] = _core("C04", "seeded programs with try/catch/finally nests and fault sites planted at every position class "
                       "(call depth, functors, generators, interpolation, literals, handlers)", "DESIGN.md §5 C04",
@@ -155,7 +157,10 @@ CHECKS["C11"] = dict(
     engine="format")
 CHECKS["C12"] = _core("C12", "programs with one fault planted under 0..4 nested calls after line-shifting constructs; the "
                       "machine reports the failing node and the call-site nodes, which are mapped to source lines and "
-                      "compared with the error's trace and with the lines quoted in the rendered message",
+                      "compared with the error's trace and with the lines quoted in the rendered message; every excerpt of every rendered "
+                      "message is checked for its layout (gutter bars in one column, carets under the column the header names); the "
+                      "debug clause: texts stacking 20 contexts of `debug <marker>` (statement, assigned value, value on the line after "
+                      "`=`, inside brackets, operands on continuation lines, blocks) report every marker once with its own line",
                       "DESIGN.md §5 C12", "Compile-error positions are checked in C10's block-prefix part.")
 
 CHECKS["C09"] = dict(
@@ -185,7 +190,8 @@ CHECKS["C13"] = dict(
     technique="TLC model checking of adaptor state machines against definitions (Iter.tla) + spec->implementation replay",
     engine="iter")
 CHECKS["C14"] = _core("C14", "every / sampled sequence of 2, 3 and 6 container actions over a 100-action alphabet on three aliasable "
-                      "variables (whole visible state printed after each action) and the equality / ordering / map-key / sort / "
+                      "variables (whole visible state printed after each action), the derivation matrix (alias, copy, deep_copy, + with an "
+                      "empty operand on either side, full slices, round trips x mutations through either name) and the equality / ordering / map-key / sort / "
                       "map-order law families; additionally TLC model-checks the machine itself as a transition system "
                       "(MC_KotoCore.tla: OneEntryPerKey, NoDangling in every configuration, MapKeepsInsertionOrder and "
                       "StoreOnlyGrows on every step)", "DESIGN.md §5 C14",
